@@ -69,6 +69,9 @@ type Exec struct {
 	Alloc     uint64
 	Deps      [NumDepKinds]int
 	FaultHit  bool
+	HitAddr   []byte
+	HitKey    string
+	HitReads  int // how often the failed key was read during the call
 	InputMut  string // non-empty: the call modified its input (C13)
 	Emitted   []*Msg
 	Transfers []spec.OutTransfer
@@ -186,6 +189,10 @@ func (nd *Node) Execute(m *Msg, faultKind, faultK int) *Exec {
 	ex.Alloc = heapAllocs() - a0
 	ex.Deps = nd.Faults.Count
 	ex.FaultHit = nd.Faults.Fired
+	ex.HitAddr, ex.HitKey = nd.Faults.HitAddr, nd.Faults.HitKey
+	if nd.Faults.Reads != nil {
+		ex.HitReads = nd.Faults.Reads[string(ex.HitAddr)+"\x00"+ex.HitKey]
+	}
 	nd.Faults.Reset(-1, 0)
 
 	// input purity (C13): argument bytes, their spare capacity, the slice headers and scalar fields
